@@ -79,3 +79,31 @@ def c03(tier):
                     "chunkings; every read compared with the outcome ChanRead.tla prescribes (message equality, exact overflow, error without panic); "
                     "evaluations = ReadFcall calls")
     return ck.finish()
+
+
+def c10(tier):
+    ck = Check("C10", tier, "model_checking")
+    ck.assumptions = ["proposals/answers are a boundary-dense list (0,1,18..25,64,4096,65535..65537,2^20,2^31-1; 2^31 and 2^32-1 share the expectation of 2^31-1: "
+                      "the decision is constant above the server's own maximum, checked by TLC on its integer range), not all of 0..2^32-1",
+                      "the server's own maximum is p9p.DefaultMSize = 65536 (ServeConn offers no other)",
+                      "the handshake model is exhaustive on a scaled instance (Own = 40, offers 0..63)"]
+    r = tlc("chan", "Negotiate", "Negotiate.cfg", workers=8, timeout=600)
+    if not r.ok:
+        raise vlib.Inconclusive("Negotiate violates %s:\n%s" % (r.violation, r.out[-2000:]))
+    ck.add_cov(states=r.distinct, transitions=r.generated, exhaustive=True, tlc_runs=[{"cfg": "Negotiate.cfg", **r.summary()}])
+    vp = os.path.join(OUT, "neg-%d.ndjson" % os.getpid())
+    r2 = tlc("chan", "NegVectors", "NegVectors.cfg", workers=1, timeout=600, printed_to=vp)
+    if not r2.ok:
+        raise vlib.Inconclusive("NegVectors failed:\n" + r2.out[-2000:])
+    try:
+        doc = harness(["neg", "-vectors", vp], timeout=1500)
+        _harness_ok(doc, "neg")
+    finally:
+        os.unlink(vp)
+    ck.take(doc)
+    ck.add_cov(traces_validated_against_impl=int(doc.get("evaluations", 0)),
+               rule="server side: every first-message kind x proposal x version string against the real ServeConn (answer, refusal without dispatch, then "
+                    "a request of exactly msize accepted, msize+1 refused, a 2^32-1 read lowered, an over-long reply never emitted, every server frame "
+                    "tapped); client side: every answer against the real CSession (adopted msize, 1 MiB write leaves as exactly msize, 1 MiB read asks "
+                    "msize-11, a reply of exactly msize is accepted, every client frame tapped); expectations computed by TLC from Negotiate.tla")
+    return ck.finish()
